@@ -779,19 +779,21 @@ func corpus() []scenario {
 	const ed = "12D3KooWFB51PRY9BxcXSH6khFXw1BZeszeLDy7C8GciskqCTZn5"
 	const long512 = "bafkrgqe3ohjcjplc6n4f3fwunlj6upltggn7xqujbsvnvyw764srszz4u4rshq6ztos4chl4plgg4ffyyxnayrtdi5oc4xb2332g645433aeg"
 	// CID texts exactly at / just above the 63-character limit, found deterministically
-	textOfLen := func(codec uint64, b mbase.Encoding, want int) string {
-		for n := 10; n <= 60; n++ {
-			for fill := 1; fill < 40; fill++ {
-				d := make([]byte, n)
-				for i := range d {
-					d[i] = byte(fill * (i + 1))
-				}
-				if t, err := cid.NewCidV1(codec, mkMh(mh.IDENTITY, d)).StringOfBase(b); err == nil && len(t) == want {
-					return t
+	textOfLen := func(cs []uint64, b mbase.Encoding, want int) string {
+		for _, codec := range cs {
+			for n := 10; n <= 60; n++ {
+				for fill := 1; fill < 40; fill++ {
+					d := make([]byte, n)
+					for i := range d {
+						d[i] = byte(fill * (i + 1))
+					}
+					if t, err := cid.NewCidV1(codec, mkMh(mh.IDENTITY, d)).StringOfBase(b); err == nil && len(t) == want {
+						return t
+					}
 				}
 			}
 		}
-		panic(fmt.Sprintf("no CID text of length %d in base %c", want, rune(b)))
+		return "" // this length does not occur in this base (e.g. base36 texts of 1-byte codecs skip 64)
 	}
 	var boundary []scenario
 	for _, bl := range []struct {
@@ -801,11 +803,14 @@ func corpus() []scenario {
 	}{{mbase.Base16, 63, "ipfs"}, {mbase.Base16, 65, "ipfs"}, {mbase.Base58BTC, 63, "ipfs"}, {mbase.Base58BTC, 64, "ipfs"},
 		{mbase.Base64url, 63, "ipfs"}, {mbase.Base36, 63, "ipfs"}, {mbase.Base36, 64, "ipfs"}, {mbase.Base36, 63, "ipns"}, {mbase.Base36, 64, "ipns"},
 		{mbase.Base32, 62, "ipfs"}, {mbase.Base32, 64, "ipfs"}} {
-		codec := uint64(cid.Raw)
+		cs := []uint64{cid.Raw, cid.DagJSON, cid.DagCBOR}
 		if bl.ns == "ipns" {
-			codec = cid.Libp2pKey
+			cs = []uint64{cid.Libp2pKey, cid.DagJSON}
 		}
-		t := textOfLen(codec, bl.b, bl.want)
+		t := textOfLen(cs, bl.b, bl.want)
+		if t == "" {
+			continue
+		}
 		// as a subdomain label and as a path root
 		boundary = append(boundary,
 			mk(sub, nil, t+"."+bl.ns+".dweb.link", "/x", "", "", false, &intent{Gw: "dweb.link", Ns: bl.ns, Root: t, Rest: "x"}, bl.ns),
